@@ -469,7 +469,10 @@ class Model:
                 o.grey = True
             self.store(o, v.val, v)
             self.validate(o, v)
-            return pending            # which option inherits the comment here is grey (C15)
+            if pending is not None:   # a list assigned one value without braces is a non-empty list like any other
+                o.comment = pending
+                pending = None
+            return pending
         if v.kind != "{":
             raise Reject(v, "expected a value or a list")
         n = 0
